@@ -449,6 +449,32 @@ func literalProvenance(c *Ctx, f *FuncInfo, a *Arm, e ast.Expr, valueParam types
 				if ft.Kind == "switch" && ObjOf(info, ft.Cond) == valueParam && len(ft.Vals) > 0 {
 					ok = true
 				}
+				// the same exact match written with comparisons (if value != "true" && value != "false"
+				// { error }): for a value that equals none of the constants some fact here is false.
+				if ft.Kind == "cond" {
+					other := func(e ast.Expr) (bool, bool) {
+						be, isB := ast.Unparen(e).(*ast.BinaryExpr)
+						if !isB || (be.Op != token.EQL && be.Op != token.NEQ) {
+							return false, false
+						}
+						var cst ast.Expr
+						switch {
+						case ObjOf(info, be.X) == valueParam:
+							cst = be.Y
+						case ObjOf(info, be.Y) == valueParam:
+							cst = be.X
+						default:
+							return false, false
+						}
+						if tv, isC := info.Types[cst]; !isC || tv.Value == nil {
+							return false, false
+						}
+						return be.Op == token.NEQ, true // value equals none of the constants
+					}
+					if v, known := evalBool3(ft.Cond, other); known && v != ft.Pos {
+						ok = true
+					}
+				}
 			}
 			if ok {
 				return ""
